@@ -89,7 +89,10 @@ func c08RunSched(sc *C08Scenario, prefix []int, horizon int) *vsync.Execution {
 		return x
 	}
 	tokAfter := jw.token(jc.ID)
-	if sc.Spec.JobType != "fullsync" {
+	// a fullsync over a plain DatasetSource pages through the entity listing (its token is not a change position); one
+	// over a LatestOnly source reads the change log like an incremental run does
+	changeTokens := sc.Spec.JobType != "fullsync" || sc.Spec.LatestOnly
+	if changeTokens {
 		jh.tokenSafety("after a run next to a source writer")
 	}
 	// the next undisturbed run restores equality
@@ -101,7 +104,7 @@ func c08RunSched(sc *C08Scenario, prefix []int, horizon int) *vsync.Execution {
 		x.Viol = append(x.Viol, "C08:recovery-run-fails::the undisturbed run after a run next to a writer fails")
 		return x
 	}
-	if sc.Spec.JobType != "fullsync" {
+	if changeTokens {
 		jh.tokenSafety("after the undisturbed run that follows")
 	}
 	jh.converged("after a run next to a source writer and one undisturbed run")
@@ -204,6 +207,7 @@ func c08Sched(r *engine.Run) {
 			Pre: []server.VOp{b("A", e("e1", "v1")), b("B", e("e2", "v1"))}, Writer: []server.VOp{b("A", e("e3", "v1")), b("B", e("e4", "v1"))}},
 		{Name: "W5-incremental-run-vs-two-source-writers", Spec: JobSpec{Sources: []string{"A"}, Sink: "Z", JobType: "incremental", BatchSize: 1}, Pre: pre,
 			Writer: []server.VOp{b("A", e("e3", "v1"))}, Writer2: []server.VOp{b("A", e("e4", "v1"))}},
+		{Name: "W6-latest-only-fullsync-run-vs-source-writer", Spec: JobSpec{Sources: []string{"A"}, LatestOnly: true, Sink: "Z", JobType: "fullsync", BatchSize: 1}, Pre: pre, Writer: writer},
 		{Name: "W4-fullsync-run-vs-source-writer", Spec: JobSpec{Sources: []string{"A"}, Sink: "Z", JobType: "fullsync", BatchSize: 1}, Pre: pre, Writer: writer},
 	}
 	for _, sc := range scs {
